@@ -183,8 +183,16 @@ unsafe fn copy_bytes(src: *const u8, dst: *mut u8, count: usize){
         return;
     }
 
-    for i in 0..count{
-        *dst.add(i) = *src.add(i);
+    // Regions may overlap (insert shifts right, remove shifts left),
+    // so copy direction matters - same as in ptr::copy.
+    if (dst as *const u8) <= src {
+        for i in 0..count{
+            *dst.add(i) = *src.add(i);
+        }
+    } else {
+        for i in (0..count).rev(){
+            *dst.add(i) = *src.add(i);
+        }
     }
 }
 
